@@ -26,6 +26,19 @@ pub fn builtin_binary_repeat<E: Effect>(
                 }
                 let count = bigint_to_usize(count)?;
                 let unit = executor.get_binary_data(binary)?.clone();
+                // The realized length must not wrap: a wrapped length would pass the size check
+                // in allocate_binary_data and the first flatten would loop `count` times.
+                match unit.len().checked_mul(count) {
+                    Some(size) if size <= crate::value::MAX_BINARY_SIZE => {}
+                    _ => {
+                        return Err(Error::InvalidArgument(format!(
+                            "Binary size {} x {} exceeds maximum {}",
+                            unit.len(),
+                            count,
+                            crate::value::MAX_BINARY_SIZE
+                        )));
+                    }
+                }
                 let tiled = BinaryData::tiled(Rc::new(unit), count);
                 // allocate_binary_data enforces MAX_BINARY_SIZE against the realized length.
                 let binary = executor.allocate_binary_data(tiled)?;
@@ -514,6 +527,15 @@ pub fn builtin_binary_get<E: Effect>(
                     let bit_offset = bit_offset as usize;
                     let num_bits = num_bits as usize;
 
+                    // An offset past the end needs no arithmetic (which would overflow for
+                    // offsets near usize::MAX / 8).
+                    if byte_offset >= binary_data.len() {
+                        return Err(Error::InvalidArgument(format!(
+                            "Not enough bits: need {} bits starting at byte {} bit {}",
+                            num_bits, byte_offset, bit_offset
+                        )));
+                    }
+
                     // Calculate which bytes we need to read
                     let total_bit_start = byte_offset * 8 + bit_offset;
                     let total_bit_end = total_bit_start + num_bits;
@@ -526,13 +548,13 @@ pub fn builtin_binary_get<E: Effect>(
                         )));
                     }
 
-                    // Read all bytes we need
-                    let mut value = 0u64;
+                    // Read all bytes we need (up to nine: 64 bits starting mid-byte)
+                    let mut value = 0u128;
                     let bytes_to_read = last_byte_needed - byte_offset;
 
                     for i in 0..bytes_to_read {
                         value =
-                            (value << 8) | (binary_data.byte_at(byte_offset + i).unwrap() as u64);
+                            (value << 8) | (binary_data.byte_at(byte_offset + i).unwrap() as u128);
                     }
 
                     // Shift to align our bits to the right
@@ -542,14 +564,10 @@ pub fn builtin_binary_get<E: Effect>(
                     value >>= bits_after;
 
                     // Mask to keep only the bits we want
-                    let mask = if num_bits == 64 {
-                        u64::MAX
-                    } else {
-                        (1u64 << num_bits) - 1
-                    };
+                    let mask = (1u128 << num_bits) - 1;
                     value &= mask;
 
-                    Ok(BuiltinResult::Value(Value::Integer(BigInt::from(value))))
+                    Ok(BuiltinResult::Value(Value::Integer(BigInt::from(value as u64))))
                 }
                 _ => Err(Error::TypeMismatch {
                     expected: "[binary, integer, integer, integer]".to_string(),
@@ -617,6 +635,15 @@ pub fn builtin_binary_set<E: Effect>(
                     let num_bits = num_bits as usize;
                     let len = binary_data.len();
 
+                    // An offset past the end needs no arithmetic (which would overflow for
+                    // offsets near usize::MAX / 8).
+                    if byte_offset >= len {
+                        return Err(Error::InvalidArgument(format!(
+                            "Not enough bits: need {} bits starting at byte {} bit {}",
+                            num_bits, byte_offset, bit_offset
+                        )));
+                    }
+
                     // Calculate which bytes we need to modify
                     let total_bit_start = byte_offset * 8 + bit_offset;
                     let total_bit_end = total_bit_start + num_bits;
@@ -658,21 +685,18 @@ pub fn builtin_binary_set<E: Effect>(
                     let bits_in_modified = bytes_to_modify * 8;
                     let bits_after = bits_in_modified - bit_offset - num_bits;
 
-                    // Shift value to correct position
-                    let shifted_value = value_u64 << bits_after;
+                    // Shift value to correct position (up to nine bytes: 64 bits starting
+                    // mid-byte)
+                    let shifted_value = (value_u64 as u128) << bits_after;
 
                     // Create mask: all 1s except in our target bits
-                    let mask = if num_bits == 64 {
-                        0
-                    } else {
-                        let target_mask = ((1u64 << num_bits) - 1) << bits_after;
-                        !target_mask
-                    };
+                    let target_mask = ((1u128 << num_bits) - 1) << bits_after;
+                    let mask = !target_mask;
 
                     // Reconstruct the bytes
-                    let mut current_bytes = 0u64;
+                    let mut current_bytes = 0u128;
                     for &byte in &modified_bytes {
-                        current_bytes = (current_bytes << 8) | (byte as u64);
+                        current_bytes = (current_bytes << 8) | (byte as u128);
                     }
 
                     let new_bytes_value = (current_bytes & mask) | shifted_value;
